@@ -33,3 +33,44 @@ Definition resp_id (req : N) : option N :=
   | Some r => Some (snd (fst r))
   | None => None
   end.
+
+(* ------------------------------------------------------------------ C06 glue *)
+From V Require Import Model.LockProto.
+(* The lock routine each pending-table event of the LTS stands for (thread 0 is
+   Watch, thread c+1 is caller c): the LTS treats a critical section as one
+   atomic event; here it is expanded into the actions of conn.go's helper. *)
+Definition lock_actions (s : state) (e : event) : list (nat * act) :=
+  match e with
+  | Register c => map (pair (S c)) [ALock; AMap true; AUnlock]
+  | Unregister c => map (pair (S c)) [ALock; AMap true; AUnlock]
+  | WatchStep =>
+    match wpc s, transport_closed s, inbound s with
+    | WReading, false, IPdu p :: _ =>
+      match pending s (snd p) with
+      | Some _ => map (pair 0%nat) [ALock; AMap false; AMap true; AUnlock]
+      | None => map (pair 0%nat) [ALock; AMap false; AUnlock]
+      end
+    | _, _, _ => []
+    end
+  | _ => []
+  end.
+Fixpoint lock_trace (v : variant) (s : state) (t : list event) : list (nat * act) :=
+  match t with
+  | [] => []
+  | e :: r => lock_actions s e ++ match step v s e with Some s' => lock_trace v s' r | None => [] end
+  end.
+Definition lock_trace_ok (v : variant) (auto_app : bool) (gs : list (list event)) : bool :=
+  match sched v auto_app gs with
+  | Some (_, _, tr) =>
+    let lt := lock_trace v init tr in
+    trace_ok lt && negb (has_adjacent_race lt) && negb (Nat.eqb (List.length lt) 0)
+  | None => false
+  end.
+
+(* threads running the given routines under the given schedule: accepted by the
+   interleaving semantics, and the executed trace is well locked and race free *)
+Definition lrun_ok (progs : list (list act)) (sched : list nat) : bool :=
+  match lrun (mkL None (fun t => nth t progs [])) sched with
+  | Some (_, tr) => trace_ok tr && negb (has_adjacent_race tr) && Nat.eqb (List.length tr) (List.length sched)
+  | None => false
+  end.
